@@ -37,6 +37,7 @@ type Obl struct {
 	Model  map[string]string
 	File   string
 	ExpectSat bool // vacuity probes: expected to be satisfiable
+	PkgDir string
 }
 
 type InputVar struct {
@@ -51,10 +52,11 @@ type State struct {
 	heap  map[string]string
 	ghost map[string]Val
 	hyps  []string
+	epoch string // heap epoch: keys not present in heap denote the constant key$epoch
 }
 
 func newState() *State {
-	return &State{vars: map[types.Object]Val{}, heap: map[string]string{}, ghost: map[string]Val{}}
+	return &State{vars: map[types.Object]Val{}, heap: map[string]string{}, ghost: map[string]Val{}, epoch: "0"}
 }
 
 func (s *State) clone() *State {
@@ -69,6 +71,7 @@ func (s *State) clone() *State {
 		n.ghost[k] = v
 	}
 	n.hyps = s.hyps[:len(s.hyps):len(s.hyps)]
+	n.epoch = s.epoch
 	return n
 }
 
@@ -233,16 +236,59 @@ func (u *Unit) heapGet(st *State, key, sort string) string {
 	if t, ok := st.heap[key]; ok {
 		return t
 	}
-	// first use: the entry value; must be the same constant in all states
+	// first use in this heap epoch: the same constant in every state of that epoch
 	u.heapSorts[key] = sort
-	name := u.d.constant(key+"$0", sort)
+	name := u.d.constant(key+"$"+st.epoch, sort)
 	st.heap[key] = name
-	if u.entry != nil {
-		if _, ok := u.entry.heap[key]; !ok {
-			u.entry.heap[key] = name
+	return name
+}
+
+// havocAll forgets everything about the heap (a call of unknown code): a new epoch starts,
+// so that also heap locations first touched later are unconstrained.
+func (u *Unit) havocAll(st *State) {
+	oldAlloc := u.alloc(st)
+	u.nfresh++
+	st.epoch = fmt.Sprintf("e%d", u.nfresh)
+	for k := range st.heap {
+		delete(st.heap, k)
+	}
+	// allocation only grows
+	na := u.alloc(st)
+	u.nfresh++
+	r := fmt.Sprintf("r!%d", u.nfresh)
+	st.assume(fmt.Sprintf("(forall ((%s Int)) (! (=> (select %s %s) (select %s %s)) :pattern ((select %s %s))))", r, oldAlloc, r, na, r, na, r))
+}
+
+// syncEpochs materialises all heap keys of the arms when their epochs differ and returns the
+// epoch of the joined state.
+func (u *Unit) syncEpochs(arms []*State) string {
+	same := true
+	for _, a := range arms[1:] {
+		if a.epoch != arms[0].epoch {
+			same = false
 		}
 	}
-	return name
+	if same {
+		return arms[0].epoch
+	}
+	keys := map[string]bool{}
+	for _, a := range arms {
+		for k := range a.heap {
+			keys[k] = true
+		}
+	}
+	for k := range u.heapSorts {
+		keys[k] = true
+	}
+	for _, a := range arms {
+		for k := range keys {
+			if _, ok := a.heap[k]; !ok {
+				u.heapGet(a, k, u.heapSorts[k])
+			}
+		}
+	}
+	u.nfresh++
+	return fmt.Sprintf("e%d", u.nfresh)
 }
 
 func (u *Unit) heapSet(st *State, key, sort, term string) {
